@@ -65,7 +65,7 @@ type c17Case struct {
 	Hist int `json:"hist,omitempty"`
 	// Pool selects the names of the entries (see c17Layout): 0 all entries in p/ and q/; 1..3
 	// some or all entries directly in the image root under names that begin with "." or "..",
-	// next to a regular file with the same name minus the leading dots (for every other entry).
+	// next to an unrelated entry with the same name minus the leading dots (for every other entry).
 	Pool int `json:"pool,omitempty"`
 	// Req (leg "graphreq"): the image is loaded with a path-set requirer that lists every
 	// symlink of the graph (not what the links lead to); the final view is decided. Copies is
@@ -137,9 +137,9 @@ func c17StateName(s int) string {
 //	pool 2: even entries in p/, odd entries "/..<g>_e<i>"
 //	pool 3: even entries "/.<g>_e<i>", odd entries "/..<g>_e<i>"
 //
-// and, for the entries with (salt+i) even, add a regular file "/<g>_e<i>" (the same name
-// without the dots) that no link points to and no query names: an answer that describes it is
-// the wrong file.
+// and, for the entries with (salt+i) even, add a neighbour "/<g>_e<i>" (the same name without
+// the dots: a regular file, or a link to /unrelated) that no link of the graph points to and no
+// query names: an answer that describes it, or what it leads to, is the wrong file.
 type c17Layout struct {
 	pool   int
 	prefix string
@@ -182,7 +182,12 @@ func c17GraphLayers(lay c17Layout, states []int) (l0, l1 []tarimg.Entry) {
 	for i, s := range states {
 		p := lay.path(i)
 		if sib := lay.sibling(i); sib != "" {
-			l0 = append(l0, tarimg.F(sib, "sibling:"+sib, 0o644))
+			// mostly a link (no on-disk work for the loader), sometimes a regular file
+			if (lay.salt+int64(i))%16 == 0 {
+				l0 = append(l0, tarimg.F(sib, "sibling:"+sib, 0o644))
+			} else {
+				l0 = append(l0, tarimg.S(sib, "/unrelated"))
+			}
 		}
 		switch {
 		case s == stFile:
@@ -974,10 +979,13 @@ report:
 	return ok
 }
 
-// c17ReqEvery: a batch is loaded with the requirer at every c17ReqEvery-th depth (which ones
-// rotates over the batches), so that every depth meets every kind of graph without doubling the
+// c17ReqEvery*: a batch is loaded with the requirer at every fourth (thorough tier: third) depth
+// (which ones rotates over the batches), so that every depth meets every kind of graph without doubling the
 // number of image loads.
-const c17ReqEvery = 3
+const (
+	c17ReqEveryQuick    = 4
+	c17ReqEveryThorough = 3
+)
 
 // c17NewJob fixes the name pool of a batch and the depths at which it is also loaded with the
 // requirer: both rotate over the batches (by a hash of the batch number and the run's seed), so
@@ -989,7 +997,11 @@ func c17NewJob(n int, codes []int64, batchNo int) c17Job {
 		job.pool = int(w) - 2
 	}
 	// (debugging knobs: VERIF_C17_POOLS=0 keeps pool 0, VERIF_C17_REQ_EVERY=0 drops the requirer leg)
-	every := ev.IntEnv("VERIF_C17_REQ_EVERY", c17ReqEvery)
+	every := c17ReqEveryQuick
+	if ev.Thorough() {
+		every = c17ReqEveryThorough
+	}
+	every = ev.IntEnv("VERIF_C17_REQ_EVERY", every)
 	off := h.next()
 	for d := 0; d <= 6 && every > 0; d++ {
 		if (off+uint64(d))%uint64(every) == 0 {
